@@ -40,6 +40,12 @@ NOTES = {
  'S5-C18': "second change for C18 (Put keeps the caller's slice and encodes it in the asynchronous replication goroutine). Missed at first (0/631): the check never used asynchronous replication. Added an async variant with embedded Puts on the owner and a census of all copies after the caller scribbled over its buffer; ordering effects of asynchronous replication (an older value on a backup) are deliberately not judged by C18. Caught since (61/682 put-buffer-aliased).",
  'S5-C19': "second change for C19 (Destroy swallows transport errors of the per-member call). Missed at first (0/317): no fault was ever injected during a Destroy. Added a variant in which the member running Destroy cannot reach another member (refused or black-holed): Destroy must report the failure or everything must be gone; a second Destroy after the heal must succeed. Also fixed a false alarm of the check this exposed (a ttl running out before the final scan of the other DMap). Caught since (56/217 key-survived-destroy).",
  'S5-C20': "second change for C20 (backup fragments are never compacted). Caught at once (allocation-unbounded / garbage-above-threshold on backup).",
+ 'S6-C01': "third change for C01 (lock-free fast path in loadOrCreateFragment: two first writers of a partition each create a fragment, one is orphaned). Caught weakly at first (1/435): concurrent first writes to an untouched partition only happened at the very start of a run. Added the fresh variant (phases as barriers: all clients start on the same untouched DMap at once, pause-heavy). Caught since (13/257).",
+ 'S6-C02': "third change for C02 (deleteBackupOnCluster skips this member although it may hold a backup fragment after a promotion). Caught at once (delete-undone, post-failure-wrong-read).",
+ 'S6-C03': "third change for C03 (the janitor checks that a fragment is empty under the shared lock and wipes it under the write lock without looking again). Missed by C03 and C01 at first: between a check and the next lock acquisition no goroutine could be descheduled in the simulator (scheduling points were function entries and clock reads only). Lock acquisition is now a scheduling point as well (simsync), and C01/C03 got a janitor variant (1-3 ms period, pause-heavy, delete/rewrite churn). Caught by C01 since (2/340: an acknowledged Put into an empty fragment is wiped); C03's own hand-over scenario needs three coincidences and was not hit in a quick run. Listed under C03 with the C01 result.",
+ 'S6-C04': "third change for C04 (Delete removes the backup copies before it takes the primary fragment's lock). Caught at once by the burst phases (6/151 backup-presence-differs/burst).",
+ 'S6-C05': "third change for C05 (fail-fast bound in the replication loop off by one: a Put is rejected when exactly WriteQuorum copies are reachable). Caught at once by the enumerated space (46/201 put-failed-although-quorum-met).",
+ 'S6-C13': "third change for C13 (left-over data report appends the member at the owner position on the coordinator). Missed at first (0/137): the divergence heals at the next routing push, before stabilisation is observed, and C13 had no writes during membership changes. Added a writer of fresh keys during the events and an invariant sampled whenever stabilisation is polled: members that applied the same pushed table (equal routing signature, new accessor) name the same owner for every partition. Caught since (2/120 owner-differs-under-equal-signature).",
  'S3-C02': "second, independent change for C02 (fragment.Move releases the fragment lock while the table travels). Missed by C02 at first (caught by C03): deletes rarely coincided with the re-replication moves after a stop. Added the sweeper variant (slow network, 4 clients deleting their own keys one by one through the failure, 7 partitions). Caught by C02 since, rarely (3 of 192 runs); C03 catches it more often (6 of 246).",
  'S3-C03': "second, independent change for C03 (fragment.Move drops the table although the target refused it). Caught at once (key-lost).",
  'S3-C13': "second, independent change for C13 (stale backup owners when the cluster shrinks to one member). Caught at once (not-stabilised).",
